@@ -18,7 +18,7 @@ import random
 from decimal import Decimal
 from fractions import Fraction as F
 
-from .. import defreg, tlaval
+from .. import defreg, reader, tlaval
 from ..engine import MachineryError, alarm, CaseTimeout
 
 LINES = ["m = [L]", "s = [T]", "n = []", "cm = 1/100 * m", "km = 1000 * m", "ms = 1/1000 * s", "are = 100 * m ** 2"]
@@ -134,6 +134,9 @@ def run(chk):
         exhaustive=True)
 
 
+DIMLESS_NAMED = ["radian", "degree", "percent", "ppm", "bit", "byte", "count", "steradian", "turn", "permille"]
+
+
 def drive_default(chk, rng, n):
     import pint
     ureg = pint.UnitRegistry(non_int_type=F)
@@ -151,6 +154,10 @@ def drive_default(chk, rng, n):
             if rng.random() < 0.4:
                 nm = rng.choice(pnames) + nm
             d[nm] = rng.choice([1, 1, 2, 3, -1, -2, -3])
+        if rng.random() < 0.12:
+            # several distinct dimensionless named units next to a dimensional one: they are mergeable (equal - empty - dimensionality)
+            for nm in rng.sample(DIMLESS_NAMED, rng.randint(2, 3)):
+                d[nm] = rng.choice([1, 1, -1, 2])
         m = F(rng.randint(1, 9999), rng.choice([1, 1, 3, 7])) * F(10) ** rng.randint(-30, 30) * rng.choice([1, -1])
         op = rng.choice(helpers)
         sysn = rng.choice(systems)
@@ -190,7 +197,11 @@ def drive_default(chk, rng, n):
             chk.skipped += 1
             continue
         changed = dict(r.unit_items()) != dict(q.unit_items())
-        events.append({"ev": "rw", "op": op, "a": defreg.cont(a_items), "b": b_cont, "am": list(defreg.residues(m)), "bm": list(defreg.residues(rm)),
+        a_cont = defreg.cont(a_items)
+        for it_, nm_ in list(zip(a_cont, a_items)) + list(zip(b_cont, dict(r.unit_items()))):
+            alts = [cn for pn, cn in defreg.readings(nm_) if pn] if nm_ in defreg._cache["sp"][0] else []
+            it_["alt"] = reader.esc(alts[0]) if alts else "_none"
+        events.append({"ev": "rw", "op": op, "a": a_cont, "b": b_cont, "am": list(defreg.residues(m)), "bm": list(defreg.residues(rm)),
                        "exactmag": exact, "changed": changed, "_m": str(m), "_sys": str(sysn)})
         chk.case(("rw", op, repr(sorted(d.items())), str(m), str(sysn)), nontrivial=changed)
         # to_compact: first-power leading unit -> magnitude in [1, 1000) when an unclamped prefix exists (harness arithmetic)
@@ -218,7 +229,10 @@ def special_inputs(chk):
     from uncertainties import ufloat
     ureg = pint.UnitRegistry()
     cases = [(0.0, "meter"), (math.nan, "meter"), (math.inf, "meter"), (-math.inf, "kilometer"), (1500.0, ""), (Decimal("Infinity"), "gram"),
-             (Decimal("-Infinity"), "gram"), (Decimal("NaN"), "gram"), (0, "second"), (ufloat(0.0, 0.1), "meter"), (ufloat(-math.inf, 0.1), "meter")]
+             (Decimal("-Infinity"), "gram"), (Decimal("NaN"), "gram"), (0, "second"), (ufloat(0.0, 0.1), "meter"), (ufloat(-math.inf, 0.1), "meter"),
+             # pure numbers written with units that cancel: nothing to prefix
+             (7000.0, "kilometer / millimeter"), (0.002, "millisecond / second"), (7000.0, "inch / foot"), (12345.0, "hour / minute"), (3e6, "kilogram * second / gram / microsecond"),
+             (5000.0, "meter / meter")]
     for m, un in cases:
         chk.case(("special", repr(m), un))
         q = ureg.Quantity(m, un)
